@@ -21,7 +21,7 @@ Alnum == Small \cup Capital \cup Digit \cup {"_"}
 GraphicSym == {"#", "$", "&", "*", "+", "-", ".", "/", ":", "<", "=", ">", "?", "@", "^", "~", "∅", "≤", "∀", "⨁", "⊥"}   \* the backslash is one more in graphic tokens
 GraphicTok == GraphicSym \cup {"\\"}
 Solo == {"!", "(", ")", ",", ";", "[", "]", "{", "}", "|", "%"}
-Layout == {" ", "\n", "\t"}
+Layout == {" ", "\n", "\t", " ", "　"}              \* (the last two: U+00A0 and U+3000 - the implementation takes every Unicode space for layout)
 Meta == {"\\", "'", "\"", "`"}
 SymbolicControl == {"a", "b", "r", "f", "t", "n", "v"}
 Octal == {"0", "1", "2", "3", "4", "5", "6", "7"}
